@@ -4652,6 +4652,10 @@ Case_BaseLdurStur:
         if (!match_signature(o0, o1, inst_flags))
           goto InvalidInstruction;
 
+        // The size comes from the source of a long instruction, so the destination has to be checked against it.
+        if ((inst_flags & InstDB::kInstFlagLong) && !check_wide_operand(o1, o0, inst_flags))
+          goto InvalidInstruction;
+
         opcode.reset(uint32_t(op_data.opcode) << 10);
         opcode.add_imm(size_op.q(), 30);
         opcode.add_imm(1u, size_op.size() + 19);
